@@ -60,7 +60,7 @@ typedef struct op {
 	/* handler side */
 	_Atomic int in_handler, reentered, ninv_pub, done_pub, retired;
 	int ninv, ndone, after_done, wrong_queue, nonempty;
-	uint64_t first_start, last_end, done_start, done_end;
+	uint64_t first_start, first_data_start, last_end, done_start, done_end;   /* first_data_start: first invocation that shows I/O of this op (bytes read / bytes written) */
 	int err_done;
 	size_t total, max_inv, over_high_size;
 	int over_high_inv;
@@ -83,7 +83,7 @@ typedef struct chan {
 } chan_t;
 
 typedef struct { int fd; const uint8_t *buf; size_t len, written; int style, pause_den, err; vf_rng_t rng; } feeder_t;
-typedef struct { int fd; uint8_t *got; size_t cap, n, hang_after; int style, overflow; vf_rng_t rng; } drainer_t;
+typedef struct { int fd; uint8_t *got; size_t cap, n, hang_after; int style, overflow; unsigned linger_us; vf_rng_t rng; } drainer_t;
 
 typedef struct trial {
 	int idx;
@@ -178,6 +178,7 @@ static void h_io(void *ctx, bool done, dispatch_data_t d, int err)
 			});
 			op->total += sz;
 			op->nonempty++;
+			if (!op->first_data_start) op->first_data_start = s;
 		}
 		if (sz > op->max_inv) op->max_inv = sz;
 		if (sz > op->high && !op->over_high_size) { op->over_high_size = sz; op->over_high_inv = op->ninv; }
@@ -203,6 +204,7 @@ static void h_io(void *ctx, bool done, dispatch_data_t d, int err)
 			}
 		}
 		op->rem = sz; op->rem_seen = 1;
+		if (sz < op->req && !op->first_data_start) op->first_data_start = s;
 		if (sz > op->max_inv) op->max_inv = sz;
 	}
 	op->ninv++;
@@ -291,6 +293,7 @@ static void *drainer_main(void *arg)
 		vf_progress();
 		if (d->style == DS_SLOW && vf_rnd_n(&d->rng, 4) == 0) sleep_us(vf_rnd_range(&d->rng, 50, 800));
 	}
+	if (d->linger_us) sleep_us(d->linger_us);   /* let the writer fill the pipe/socket buffer before the peer goes away */
 	close(d->fd);
 	return NULL;
 }
@@ -432,7 +435,9 @@ static void start_drainer(trial_t *t, size_t cap)
 	memset(d, 0, sizeof(*d));
 	d->fd = t->fd_peer; d->cap = cap; d->got = malloc(cap ? cap : 1);
 	d->style = (int)vf_rnd_n(r, DS_N + 1); if (d->style >= DS_N) d->style = DS_SLOW;
+	if (d->style == DS_HANGUP && t->transport == TR_PIPE && !vf_opt_long("pipe-hangup", 1)) d->style = DS_STALL;
 	d->hang_after = d->style == DS_HANGUP ? vf_rnd_n(r, (uint32_t)(cap / 2 + 2)) : 0;
+	d->linger_us = d->style == DS_HANGUP && vf_rnd_n(r, 2) ? vf_rnd_range(r, 500, 8000) : 0;
 	vf_rng_seed(&d->rng, t->salt, 502);
 	if (pthread_create(&t->th, NULL, drainer_main, d)) vf_fail("pthread_create");
 	t->th_running = 1;
@@ -755,13 +760,13 @@ static void check_order(trial_t *t)
 			int zero = !a->req || !b->req;
 			int viol = 0;
 			if (b->done_end < a->done_start) viol = 1;
-			else if (!zero && t->hq_kind == HQ_SERIAL && b->first_start < a->done_end) viol = 2;
+			else if (!zero && b->first_data_start && b->first_data_start < a->done_end) viol = 2;
 			if (!viol) continue;
 			op_brief(a, ba, sizeof(ba)); op_brief(b, bb, sizeof(bb));
 			int canc = a->err_done == ECANCELED || b->err_done == ECANCELED;
 			snprintf(k, sizeof(k), zero ? "C14:%s:zero-length-op-completes-out-of-order" : canc ? "C14:%s:ops-complete-out-of-order:cancelled-by-stop" : "C14:%s:ops-complete-out-of-order", dn);
 			VIOL(t, k, "stream channel: %s was submitted before %s, but %s", ba, bb,
-					viol == 1 ? "the later operation's done invocation returned before the earlier one's began" : "a handler invocation of the later operation started before the earlier one's done invocation returned (serial handler queue)");
+					viol == 1 ? "the later operation's done invocation returned before the earlier one's began" : "an invocation of the later operation that shows its I/O in progress (data read / bytes written) started before the earlier one's done invocation returned (serial handler queue)");
 			return;
 		}
 	}
@@ -1063,7 +1068,7 @@ static void run_chan_trial(trial_t *t)
 			else check_write_conservation(t, t->drainer.got, t->drainer.n, t->drainer.style != DS_HANGUP);
 		} else {
 			if (t->fd_verify < 0) t->fd_verify = open(t->path, O_RDONLY);
-			if (t->fd_verify < 0) { if (wtotal) VIOL(t, "C14:write:conservation", "file %s does not exist after the writes (%s)", t->path, strerror(errno)); }
+			if (t->fd_verify < 0) check_write_conservation(t, (const uint8_t *)"", 0, 1);   /* never created: nothing may be reported written */
 			else if (t->mode == DISPATCH_IO_STREAM) {
 				size_t exp = 0;
 				for (int i = 0; i < t->nops; i++) if (t->ops[i].kind == K_WRITE) exp += t->ops[i].req - (t->ops[i].rem_done <= t->ops[i].req ? t->ops[i].rem_done : t->ops[i].req);
@@ -1175,7 +1180,7 @@ static void run_conv_trial(trial_t *t)
 	if (t->dir == K_READ) {
 		int rounds = 0, eof = 0;
 		while (!eof && rounds < 24 && t->nops + 2 <= t->maxops) {
-			int first = t->nops, n = vf_rnd_n(r, 4) == 0 ? 2 : 1;
+			int first = t->nops, n = (vf_rnd_n(r, 4) == 0 && vf_opt_long("conv-pair", 1)) ? 2 : 1;
 			for (int i = 0; i < n; i++) {
 				k = vf_rnd_n(r, 100);
 				conv_submit_read(t, k < 10 ? 1 : k < 30 ? vf_rnd_range(r, 2, 512) : k < 60 ? vf_rnd_range(r, 513, 65536) : k < 75 ? vf_rnd_range(r, 65537, 1u << 20) : SIZE_MAX);
